@@ -14,10 +14,12 @@ Lc > 255 (no extended length support), the endless READ BINARY loop when the
 card returns no data (`outOfFuel`).
 
 `Variant.asFound` is the code of the unchanged tree, `Variant.repaired` the
-code with the two repairs of `fixes/C01_t34`:
+code with the three repairs of `fixes/C01_t34`:
 * the final NLEN update is looped like the data updates (F35),
 * MLe / MLc taken from the capability container are limited to what short
-  APDU fields can carry (Le ≤ 256, Lc ≤ 255), since `send_apdu` refuses more.
+  APDU fields can carry (Le ≤ 256, Lc ≤ 255), since `send_apdu` refuses more,
+* the reported capacity is limited to the part of the file a 16 bit offset in
+  P1-P2 can address (`min(mfs, 65536) - NLEN size`).
 -/
 namespace NfcVerif.T4
 open NfcVerif.T34
@@ -26,10 +28,11 @@ open NfcVerif.T34
 structure Variant where
   nlenLoop : Bool     -- final NLEN update looped (F35)
   shortApdu : Bool    -- MLe/MLc limited to 256/255
+  offsetClamp : Bool  -- capacity limited to what a 16 bit P1-P2 offset addresses
   deriving DecidableEq, Repr
 
-def Variant.asFound : Variant := ⟨false, false⟩
-def Variant.repaired : Variant := ⟨true, true⟩
+def Variant.asFound : Variant := ⟨false, false, false⟩
+def Variant.repaired : Variant := ⟨true, true, true⟩
 
 structure Card where
   cc : Bytes
@@ -82,7 +85,7 @@ def discover (v : Variant) (c : Card) : Py (Option Info) :=
       let mlc := c1 * 256 + c0
       .ok (some { maxLe := if v.shortApdu then min mle 256 else mle,
                   maxLc := if v.shortApdu then min mlc 255 else mlc,
-                  capacity := (mfs : Int) - tag + 2,
+                  capacity := ((if v.offsetClamp then min mfs 65536 else mfs : Nat) : Int) - tag + 2,
                   readable := decide (rf = 0), writeable := decide (wf = 0),
                   nlenSize := tag - 2, fid := [v0, v1] })
   | _ => .error .struct
